@@ -73,6 +73,7 @@ type wopts struct {
 	Before    bool   // InterceptBefore: value.a += old.a + 10
 	After     bool   // InterceptAfter: new.b = "after:" + first letter of old.b
 	WriteTime bool
+	MoreW     bool // this write alone may also write b (WithMoreWritablePaths): the resource's own writable fields stay what they are
 	// collection only
 	Create       bool
 	ExpectAbsent bool
@@ -94,7 +95,7 @@ func (o wopts) String() string {
 	for _, f := range []struct {
 		on bool
 		n  string
-	}{{o.Before, "before"}, {o.After, "after"}, {o.WriteTime, "writeTime"}, {o.Create, "createIfAbsent"}, {o.ExpectAbsent, "expectAbsent"}, {o.AllowMissing, "allowMissing"}, {o.GenID, "genID"}} {
+	}{{o.Before, "before"}, {o.After, "after"}, {o.WriteTime, "writeTime"}, {o.MoreW, "alsoWritable=b"}, {o.Create, "createIfAbsent"}, {o.ExpectAbsent, "expectAbsent"}, {o.AllowMissing, "allowMissing"}, {o.GenID, "genID"}} {
 		if f.on {
 			p = append(p, f.n)
 		}
@@ -171,6 +172,9 @@ func (o wopts) build(c *cb) []resource.WriteOption {
 	if o.WriteTime {
 		w = append(w, resource.WithWriteTime(t0.Add(-time.Hour)))
 	}
+	if o.MoreW {
+		w = append(w, resource.WithMoreWritablePaths("default_string"))
+	}
 	if o.Create {
 		w = append(w, resource.WithCreateIfAbsent())
 	}
@@ -224,7 +228,7 @@ func (m *model) validate(o wopts) codes.Code {
 	}
 	if m.writable == "a" && o.Mask != "nil" && o.Mask != "{}" {
 		for _, f := range strings.Split(o.Mask, ",") {
-			if f != "a" {
+			if f != "a" && !(f == "b" && o.MoreW) {
 				return codes.InvalidArgument
 			}
 		}
@@ -252,7 +256,7 @@ func (m *model) change(old val, v val, o wopts) (val, codes.Code) {
 	n := old
 	if o.Mask != "{}" {
 		inMask := func(f string) bool { return o.Mask == "nil" || strings.Contains(","+o.Mask+",", ","+f+",") }
-		inW := func(f string) bool { return m.writable == "" || m.writable == f }
+		inW := func(f string) bool { return m.writable == "" || m.writable == f || (f == "b" && o.MoreW) }
 		if inMask("a") && inW("a") {
 			n.a = v.a
 		}
@@ -678,6 +682,7 @@ func optionCombos(thorough, collection, del bool) []wopts {
 		{"before", []func(*wopts){func(o *wopts) { o.Before = true }}},
 		{"after", []func(*wopts){func(o *wopts) { o.After = true }}},
 		{"writeTime", []func(*wopts){func(o *wopts) { o.WriteTime = true }}},
+		{"alsoWritable", []func(*wopts){func(o *wopts) { o.MoreW = true }}},
 	}
 	if collection {
 		dims = append(dims,
